@@ -41,7 +41,7 @@ var c06Forms = []refForm{
 }
 
 // positions: each is a hole in the host document
-var c06Positions = []string{"a-para", "a-li", "a-caption", "a-cell", "img-src", "img-srcset1", "img-srcset2", "img-lazy", "source-srcset", "video-src", "video-poster", "vsource-src", "track-src", "img-in-table", "figure-img", "picture-img", "a-block-h2", "a-inline-block", "video-only-poster", "a-wrap-em", "a-wrap-span-li"}
+var c06Positions = []string{"a-para", "a-li", "a-caption", "a-cell", "img-src", "img-srcset1", "img-srcset2", "img-lazy", "source-srcset", "video-src", "video-poster", "vsource-src", "track-src", "img-in-table", "figure-img", "picture-img", "a-block-h2", "a-inline-block", "video-only-poster", "a-wrap-em", "a-wrap-span-li", "a-symbol", "a-symbol-li"}
 
 func c06Doc(assign map[int]int) string {
 	t := &ora.Tok{}
@@ -70,6 +70,9 @@ func c06Doc(assign map[int]int) string {
 	sb.WriteString("<div><a style=\"display: inline-block\" href=\"" + u("a-inline-block") + "\">" + t.W(18) + "</a></div>" + pc())
 	sb.WriteString("<h3><a href=\"" + u("a-wrap-em") + "\"><em>" + t.W(5) + "</em></a></h3>" + pc())
 	sb.WriteString("<ul><li><a href=\"" + u("a-wrap-span-li") + "\"><span>" + t.W(12) + "</span></a></li><li>" + t.W(11) + "</li></ul>" + pc())
+	// anchors whose text has no word character (an arrow, a pilcrow): the block's only links
+	sb.WriteString("<p>" + t.W(19) + " <a href=\"" + u("a-symbol") + "\">\u2192</a></p>" + pc())
+	sb.WriteString("<ul><li>" + t.W(12) + " <a href=\"" + u("a-symbol-li") + "\">\u00b6</a></li><li>" + t.W(11) + "</li></ul>" + pc())
 	sb.WriteString("<video poster=\"" + u("video-only-poster") + "\" width=\"400\" height=\"300\"></video>" + pc())
 	sb.WriteString("<table><tr><th>" + t.W(1) + "</th><th>" + t.W(1) + "</th></tr><tr><td>" + t.W(1) + " <img src=\"" + u("img-in-table") + "\"></td><td><a href=\"" + u("a-cell") + "\">" + t.W(1) + "</a></td></tr><tr><td>" + t.W(1) + "</td><td>" + t.W(1) + "</td></tr></table>" + pc())
 	sb.WriteString("</div></body></html>")
@@ -309,7 +312,7 @@ func init() {
 	eng.Register(&eng.Prop{
 		ID:        "C06",
 		DesignRef: "§5 C06",
-		Rule: "host document with 21 URL-carrying positions (anchors wrapping a single inline element, block-styled anchors that become the root of their text block, a video with only a poster, a[href] in paragraph/list item/caption/table cell; img src, two srcset candidates, lazy data-src, picture source srcset + img, figure img, video src/poster, video source/track src, img in table), each defaulting to an absolute URL with a unique marker; " +
+		Rule: "host document with 23 URL-carrying positions (anchors whose text is a symbol without word characters, anchors wrapping a single inline element, block-styled anchors that become the root of their text block, a video with only a poster, a[href] in paragraph/list item/caption/table cell; img src, two srcset candidates, lazy data-src, picture source srcset + img, figure img, video src/poster, video source/track src, img in table), each defaulting to an absolute URL with a unique marker; " +
 			"every assignment of <= 2 (quick) / <= 3 (thorough) positions to one of 17 non-default reference forms (relative references that embed another absolute URL, paths containing commas, path-relative, ./, ../, root-relative, scheme-relative, query-only, fragment, data:, javascript:, https absolute, unparseable, relative with query, empty) x 4 page URLs." + crossRule + " (there, without markers: every URL of the output must be what the rule gives for some URL attribute of the source) " +
 			"Oracle: each URL attribute/srcset candidate of result.Node outside embed placeholders and each ContentImages entry, traced to its original by marker, equals the statement's rule (pass-through or RFC 3986 resolution against the page URL) and is absolute when resolved. Non-trivial = >= 1 relative reference reached the output.",
 		Enumerate: c06Enumerate,
